@@ -52,8 +52,18 @@ pub fn caps_of(i: usize) -> ChecksumCapabilities {
     }
     c
 }
+/// which checksums the stack has to compute itself: decided from the capability VALUE by an
+/// explicit match (never through smoltcp's own `Checksum::tx()` predicate, which is subject code)
 pub fn txck_of(c: &ChecksumCapabilities) -> TxCk {
-    TxCk { ipv4: c.ipv4.tx(), udp: c.udp.tx(), tcp: c.tcp.tx(), icmpv4: c.icmpv4.tx(), icmpv6: c.icmpv6.tx() }
+    fn tx(k: &Checksum) -> bool {
+        match k {
+            Checksum::Both | Checksum::Tx => true,
+            Checksum::Rx | Checksum::None => false,
+            #[allow(unreachable_patterns)]
+            _ => true,
+        }
+    }
+    TxCk { ipv4: tx(&c.ipv4), udp: tx(&c.udp), tcp: tx(&c.tcp), icmpv4: tx(&c.icmpv4), icmpv6: tx(&c.icmpv6) }
 }
 
 pub fn medium_name(m: Medium) -> &'static str {
